@@ -64,6 +64,9 @@ def gen_cases(ctx):
                 if not fine and tf == "flood" and rng.random() < 0.6:
                     continue
                 yield {"tc": tc, "tr": tr, "traffic": tf, "progress": [], "raise_at": None}
+                if tf == "none" and isinstance(tr, float) and abs(tr * 2 - round(tr * 2)) < 1e-9 and tc is None:
+                    for tie in (1, 2, 3):
+                        yield {"tc": tc, "tr": tr, "traffic": tf, "progress": [], "raise_at": None, "tie": tie}
     # 2. progress streams
     prog_kinds = ["right", "foreign", "right_missing", "right_total_msg", "foreign_int", "right_null_params"]
     for tr in (None, 0.3, 0.8, 1.0, T - 0.01):
